@@ -140,7 +140,7 @@ static void fetch_master_errors (void) {
       svalue_t *e = &r->u.arr->item[i];
       if (e->type != T_ARRAY || e->u.arr->size < 1 || e->u.arr->item[0].type != T_STRING) continue;
       const char *txt = e->u.arr->item[0].u.string;
-      if (strstr (txt, "injected:")) cyc_report_master++;
+      if (strstr (txt, "injected:")) { if (selftest != 3) cyc_report_master++; }
       else { cyc_other_err++; vx_obs ("  master: %s", txt); }
     }
   }
@@ -293,6 +293,7 @@ static void send_all (io_event_t *ev, int *n, const char *line) {
     env_cli *c = &env_clients[i];
     if (!nl_client_live (c) || c->peer_closed || !c->registered) continue;
     char b[32]; int l = snprintf (b, sizeof b, "%s\r\n", line);
+    if (selftest == 1 && i == 0 && !strcmp (line, "ping")) continue;      /* self-test: the environment loses client 0's ping */
     env_client_send (c, b, (size_t) l);
     *n = add_cli_event (ev, *n, c, EVENT_READ);
   }
@@ -354,7 +355,11 @@ static int hook (io_event_t *ev, int max, struct timeval *tmo) {
       }
       list[nl++] = (evt) { E_HUP_R, i }; list[nl++] = (evt) { E_HUP_C, i };
     }
-    if (merge) { build_state (); vx_state (canon, (size_t) cn); }
+    if (merge) {
+      int ed_open = 0;
+      for (int i = 0; all_users && i < max_users; i++) if (all_users[i] && all_users[i]->ed_buffer) ed_open = 1;
+      if (!ed_open) { build_state (); vx_state (canon, (size_t) cn); }     /* an ed session has state that is not in the canonical form */
+    }
     char lab[28]; snprintf (lab, sizeof lab, "ev%d", step);
     int c = vx_choose_free (nl, lab);
     vx_obs ("step %d: %s%s%d", step, ev_name[list[c].kind], list[c].cli >= 0 ? " c" : " ", list[c].cli);
@@ -430,6 +435,9 @@ static void check_last_tick (void) {
 
 static void final_oracle (void) {
   if (!returned) return;
+  for (int i = 0; i < ENV_MAXCLI; i++)
+    if (env_clients[i].used && env_clients[i].out_len > 3500)
+      fail_hist ("C09:harness-assumption:output-ring-wrap", "client %d received %zu bytes: the output ring may have wrapped, which the bounds of this check exclude", i, env_clients[i].out_len);
   /* ping -> pong for every healthy, still connected user */
   for (int i = 0; i < ENV_MAXCLI; i++) {
     env_cli *c = &env_clients[i];
@@ -473,7 +481,7 @@ static void body (void) {
   push_str (P.hostile); push_number (P.hret);
   hx_apply (po, "set_hostile", 2);
   if (P.kind == K_RESET || P.kind == K_CLEANUP) { push_number (5000); hx_apply (po, "set_period", 1); }
-  if (selftest == 2) { push_str ("selftest_swallow"); push_number (1); hx_apply (po, "set_hostile", 2); }
+  if (selftest == 2) { push_number (2); hx_apply (po, "set_st", 1); }
   nl_policy_i ("error_handler_fails", P.hfail);
   safe_apply_master_ob ("clear_errors", 0);
   MAIN_OPTION (console_mode) = P.console;
@@ -506,7 +514,7 @@ int main (int argc, char **argv) {
   depth = (int) vx_opt_long ("depth", 3);
   maxconn = (int) vx_opt_long ("maxconn", 2);
   selftest = (int) vx_opt_long ("selftest", 0);
-  merge = (int) vx_opt_long ("merge", 1);
+  merge = (int) vx_opt_long ("merge", 0);
   insn_limit = vx_opt_long ("insn-limit", 30000);
   build_plans ();
   snprintf (mud, sizeof mud, "%s/mudlib/base", hx_verif_dir ());
